@@ -89,7 +89,7 @@ func classOf(b string, n int) string {
 			return "good"
 		}
 		return "bad"
-	case "granted-with-mods", "gentime-not-utc", "tstinfo-version-2":
+	case "granted-with-mods", "gentime-not-utc", "tstinfo-version-2", "leaf-empty-subject":
 		return "either"
 	}
 	return "bad"
@@ -388,6 +388,7 @@ func run(r *core.Run) int {
 		"x revocation validator {absent, every vector over {OK, NonRevokable, Unknown, Revoked}^n for the TSA chain length n = 2..4, error, wrong length, empty} x 2 formats x 2 schemes x timestamper present/absent; complete for P-256; the other five key specs pairwise (quick) or with the same product over chain lengths 2..3 (thorough). non-trivial = a timestamper is set; distinct by descriptor"
 	r.Assume("a TSA chain that expired decades ago (or starts decades from now) does not 'chain to the trusted roots' at the time of signing, whatever genTime the token claims")
 	r.Assume("the authority double labels what it served; 'granted with modifications', a non-UTC genTime and TSTInfo version 2 are not settled by the statement and only counted")
+	r.Assume("an issuing TSA CA whose extended key usage names code signing only does not give a path 'chaining to the trusted roots' for time stamping (the nesting rule of the verifier the library delegates to); a TSA leaf with an empty subject name is not settled and only counted - but no revocation verdict about it may be lost")
 	hostTrustStore(r)
 	var cases []*Case
 	rng := r.Rand("pairwise")
